@@ -714,14 +714,26 @@ func (h *harness) streamCyclic() {
 
 // (a) seeded random expressions.
 type rgen struct {
-	r *core.Rand
+	r     *core.Rand
+	avoid string // variable that must not be mentioned (no self-containing values outside the cyclic stream)
+}
+
+func (g *rgen) variable() string {
+	for {
+		if v := []string{"a", "b", "c"}[g.r.Intn(3)]; v != g.avoid {
+			return v
+		}
+	}
 }
 
 var rcalls = []string{"len", "type", "concat", "add", "del", "f", "math.sqrt", "math.floor", "timestamp", "new", "doc", "range", "raise", "math.pow"}
 
 func (g *rgen) leaf() string {
 	if g.r.Chance(1, 4) {
-		return []string{"a", "b", "c", "nosuch"}[g.r.Intn(4)]
+		if g.r.Chance(1, 4) {
+			return "nosuch"
+		}
+		return g.variable()
 	}
 	return universe[g.r.Intn(len(universe))].src
 }
@@ -747,7 +759,7 @@ func (g *rgen) expr(d int) string {
 	case 7:
 		return "{" + g.expr(d-1) + " : " + g.expr(d-1) + "}"
 	case 8:
-		v := []string{"a", "b", "c"}[g.r.Intn(3)]
+		v := g.variable()
 		if g.r.Bool() {
 			return v + "[" + g.expr(d-1) + "]"
 		}
@@ -772,7 +784,7 @@ func (h *harness) streamRandom() {
 			continue
 		}
 		r := c.Rng(stream, i)
-		g := &rgen{r}
+		g := &rgen{r: r}
 		pre := preamble
 		for _, v := range []string{"a", "b", "c"} {
 			pre += v + " := " + universe[r.Intn(len(universe))].src + ";\n"
@@ -780,7 +792,12 @@ func (h *harness) streamRandom() {
 		var x string
 		switch r.Intn(6) {
 		case 0:
-			x = "a[" + g.expr(2) + "] := " + g.expr(2) + "\na"
+			// the stored value never mentions a: a value containing itself is
+			// the business of the cyclic stream only
+			idx := g.expr(2)
+			g.avoid = "a"
+			x = "a[" + idx + "] := " + g.expr(2) + "\na"
+			g.avoid = ""
 		case 1:
 			x = "if " + g.expr(3) + " {\n " + g.expr(2) + "\n} else {\n " + g.expr(2) + "\n}"
 		default:
